@@ -127,7 +127,29 @@ def main():
             return ("str", ops[short].encode())
         return None
 
+    def text_of(e, x):
+        x = deref(e, x)
+        while isinstance(x, Ref):
+            x = deref(e, x)
+        if isinstance(x, tuple) and x[0] == "string":
+            return x[1]
+        if isinstance(x, tuple) and x[0] == "str":
+            return x[1].decode()
+        raise Unsupported("text of %r" % (str(x)[:60],))
+
+    def m_vec_index(e, m, a):
+        v = deref(e, a[0])
+        if a[1] >= len(v[1]):
+            e.violations.append({"kind": "panic", "message": "index out of bounds", "function": "expander", "model": None})
+            raise PanicFound("index out of bounds", None)
+        return Ref({0: v[1][a[1]]}, 0, ())
+
     extern = [
+        (r"^<String as Deref>::deref$", lambda e, m, a: ("string", text_of(e, a[0]))),
+        (r"^String::as_str$", lambda e, m, a: ("string", text_of(e, a[0]))),
+        (r"^<(?:&)?(?:String|str|&str) as PartialEq(?:<(?:&)?(?:String|str|&str|&&str)>)?>::(eq|ne)$", lambda e, m, a: (text_of(e, a[0]) == text_of(e, a[1])) == (m.group(1) == "eq")),
+        (r"^<Vec<IdedExpr> as Index<usize>>::index$", m_vec_index),
+        (r"^core::slice::<impl \[IdedExpr\]>::len$", m_vec_len),
         (r"^parser::MacroExprHelper::<'_>::next_expr$", m_next_expr),
         (r"^parser::MacroExprHelper::<'_>::pos_for$", lambda e, m, a: ("None",)),
         (r"^Option::<\(isize, isize\)>::unwrap_or_default$", lambda e, m, a: [0, 0]),
@@ -180,6 +202,13 @@ def main():
         "literal true": lambda tag: lit_b(True),
         "literal false": lambda tag: lit_b(False),
         "call": lambda tag: I(("enum", "Expr::Call", [[S("f_" + tag), ("None",), ("vec", [ident("a_" + tag)])]])),
+        # bodies over the iteration variable itself, as users write them
+        "loop variable": lambda tag: ident("x"),
+        "x == literal": lambda tag: call("EQUALS", [ident("x"), lit_i(3)]),
+        "x == other": lambda tag: call("EQUALS", [ident("x"), ident("c_" + tag)]),
+        "literal == x": lambda tag: call("EQUALS", [lit_i(3), ident("x")]),
+        "x > literal": lambda tag: call("GREATER", [ident("x"), lit_i(3)]),
+        "x in other": lambda tag: call("IN", [ident("x"), ident("c_" + tag)]),
     }
 
     def expectations(T, P, F):
@@ -217,11 +246,15 @@ def main():
     try:
         combos = [(t, p_, f_) for t in ("identifier", "call") for p_ in ("identifier", "literal true", "literal false", "call")
                   for f_ in ("identifier", "literal true", "literal false")]
+        combos += [("identifier", p_, "identifier") for p_ in ("loop variable", "x == literal", "x == other", "literal == x", "x > literal", "x in other")]
+        combos += [("identifier", "identifier", f_) for f_ in ("x == literal", "x > literal", "loop variable")]
         for (ts, ps, fs) in combos:
           T, P, F = SHAPES[ts]("T"), SHAPES[ps]("P"), SHAPES[fs]("F")
           for name, (args, want) in expectations(T, P, F).items():
-            if name != "map3" and fs != combos[0][2]:
+            if name != "map3" and fs not in (combos[0][2], "identifier"):
                 continue   # the filter shape only matters for the three-argument map
+            if name != "map3" and fs == "identifier" and ps in ("identifier", "literal true", "literal false", "call"):
+                continue
             fname = {"map3": "map"}.get(name, name) + "_macro_expander"
             if fname not in fns:
                 raise Unsupported("expander %s not found" % fname)
